@@ -78,8 +78,14 @@ class C16(PropCheck):
         r = self.rng
         q = self.tier == 'quick'
         n_sample, n_bolfi, n_diag, n_bad = (260, 220, 240, 80) if q else (3200, 2600, 2400, 900)
+        n_hist, n_smc = (220, 14) if q else (2600, 160)
         for _ in range(n_sample):
             yield self.gen_sample()
+        for _ in range(n_hist):
+            yield self.gen_hist()
+        for _ in range(n_smc):
+            for c in self.gen_smc():
+                yield c
         for _ in range(n_bolfi):
             yield self.gen_bolfi()
         for j in range(n_diag):
@@ -127,6 +133,121 @@ class C16(PropCheck):
         self.bump('sample:exact=%s' % exact)
         return dict(kind='sample', cls=cls, names=names, outputs=outputs, burn=burn, weights=weights, exact=exact, alphas=alphas,
                     fmt=r.choice(['pkl', 'json', 'csv']))
+
+    # -- histories of public-attribute assignments on one object ------------------------------------
+    @staticmethod
+    def _new_vals(r, count, exact, seen):
+        out = []
+        while len(out) < count:
+            v = _dy(r) if exact else r.choice([r.gauss(0, 3), r.uniform(-1e3, 1e3), _dy(r), r.gauss(5, 1e-3)])
+            if v not in seen:
+                seen.add(v)
+                out.append(v)
+        return out
+
+    @staticmethod
+    def _gen_weights(r, n, exact, zeros=False):
+        if exact:
+            # positive integers with a power-of-two sum: every float operation on them is exact
+            tot = 1 << max(n - 1, 1).bit_length() + r.randint(0, 3)
+            cuts = sorted(r.sample(range(1, tot), n - 1)) if n > 1 else []
+            return [float(b - a) for a, b in zip([0] + cuts, cuts + [tot])]
+        w = [r.choice([r.random(), r.expovariate(1.0), float(r.randint(1, 9))]) for _ in range(n)]
+        if zeros and n > 2:
+            w[r.randrange(n)] = 0.0
+        return w
+
+    def gen_hist(self):
+        """one result object, then 1-4 rounds of (assignments to .weights / .samples[name], all summaries).  The first
+        round may have no assignment (summaries are called on the fresh object BEFORE anything is assigned) or assign
+        straight away (what SMC._extract_population does: unweighted population, then sample.weights = w)."""
+        r = self.rng
+        k = r.randint(1, 4)
+        n = r.choice([2, 3, 4, 4, 5, 7, 8, 8, 11, 16, 40])
+        names = r.sample(NAMES, k)
+        extra = r.sample([x for x in NAMES if x not in names], r.randint(0, 2))
+        keys = names + extra + ['d']
+        r.shuffle(keys)
+        cls = r.choice(['Sample', 'Sample', 'Sample', 'SmcSample', 'BslSample'])
+        burn = r.choice([0, 1, 2]) if cls == 'BslSample' else 0
+        exact = r.random() < 0.45
+        total = n + burn
+        seen = set()
+        outputs = [[key, self._new_vals(r, total, exact, seen)] for key in keys]
+        w0 = 'none' if cls == 'BslSample' else 'given' if cls == 'SmcSample' else r.choice(['none', 'none', 'given'])
+        weights = None if w0 == 'none' else self._gen_weights(r, n, exact, zeros=r.random() < 0.2)
+        cur_w = weights
+        cur_cols = dict((key, vals[burn:]) for key, vals in outputs)
+        steps = []
+        nsteps = r.choice([1, 2, 2, 3, 3, 4])
+        for i in range(nsteps):
+            nops = r.choice([0, 1, 1, 2]) if i == 0 and nsteps > 1 else r.choice([1, 1, 2])
+            ops = []
+            for _ in range(nops):
+                kind = r.choice(['w_set'] * 5 + ['w_none', 'col_set', 'col_set', 'w_bad'])
+                if kind == 'w_set':
+                    hows = ['rebind', 'rebind', 'rebind_list']
+                    if cur_w is not None and len(cur_w) == n:
+                        hows += ['inplace', 'inplace', 'inplace_one']
+                    how = r.choice(hows)
+                    op = dict(op='weights', how=how)
+                    if how == 'inplace_one':
+                        new = list(cur_w)
+                        j = r.randrange(n)
+                        new[j] = r.choice([float(r.randint(1, 64)), 17.5 * r.random(), 0.0 if n > 2 and not exact else 3.0])
+                        if new[j] == cur_w[j]:
+                            new[j] += 1.0
+                        op['index'] = j
+                    else:
+                        new = self._gen_weights(r, n, exact, zeros=r.random() < 0.2)
+                    op['value'] = new
+                    cur_w = new
+                elif kind == 'w_none':
+                    op = dict(op='weights', how='rebind', value=None)
+                    cur_w = None
+                elif kind == 'w_bad':
+                    what = r.choice(['len', 'zero_sum'])
+                    new = [1.0] * (n + 1) if what == 'len' else [1.0, -1.0] * (n // 2) + [0.0] * (n % 2)
+                    op = dict(op='weights', how='rebind', value=new, bad=what)
+                    cur_w = new
+                else:
+                    name = r.choice(names)
+                    how = r.choice(['rebind', 'inplace', 'inplace_one'])
+                    op = dict(op='col', how=how, name=name)
+                    if how == 'inplace_one':
+                        new = list(cur_cols[name])
+                        j = r.randrange(n)
+                        new[j] = self._new_vals(r, 1, exact, seen)[0]
+                        op['index'] = j
+                    else:
+                        new = self._new_vals(r, n, exact, seen)
+                    op['value'] = new
+                    cur_cols[name] = new
+                self.bump('hist:op=%s/%s' % (kind if kind != 'w_bad' else 'w_bad_' + op['bad'], op['how']))
+                ops.append(op)
+            alphas = [0.5, 0.025, 0.975, 0.0, 1.0, r.choice([0.25, 0.75, 0.125, 0.0625]), r.random()]
+            steps.append(dict(ops=ops, alphas=alphas))
+        self.bump('hist:' + cls)
+        self.bump('hist:initial_weights=' + w0)
+        self.bump('hist:first_summary=%s' % ('before_any_assignment' if not steps[0]['ops'] else 'after_assignment'))
+        self.bump('hist:rounds=%d' % nsteps)
+        self.bump('hist:exact_data=%s' % exact)
+        return dict(kind='hist', cls=cls, names=names, outputs=outputs, burn=burn, weights=weights, steps=steps,
+                    fmt=r.choice(['pkl', 'json', 'csv']))
+
+    def gen_smc(self):
+        """one real SMC run on a small model; one case per population and one for the final SmcSample (the run is repeated
+        from its seed when a single case is replayed)"""
+        r = self.rng
+        rounds = r.choice([2, 3, 3, 4])
+        start = r.choice([8, 7, 6])
+        thr = sorted((float(max(2, start - 2 * i + r.choice([0, 1]))) for i in range(rounds)), reverse=True)
+        run = dict(two_params=r.random() < 0.6, width=r.choice([1, 2]), levels=r.choice([4, 6, 8]), n=r.choice([4, 6, 9, 12, 16, 25]),
+                   b=r.choice([5, 10, 20, 50]), seed=r.randrange(2 ** 31), thresholds=thr, maxp=r.choice([1, 2, 3]))
+        self.bump('smc:rounds=%d' % rounds)
+        self.bump('smc:params=%d' % (2 if run['two_params'] else 1))
+        alphas = [0.5, 0.025, 0.975, 0.0, 1.0, r.choice([0.25, 0.75, 0.125]), r.random()]
+        return [dict(kind='smc', run=run, pop=i, alphas=alphas) for i in list(range(rounds)) + [-1]]
 
     def gen_bolfi(self):
         r = self.rng
@@ -307,6 +428,10 @@ class C16(PropCheck):
         kind = case['kind']
         if kind == 'diag':
             return self.run_diag(case)
+        if kind == 'hist':
+            return self.run_hist(case)
+        if kind == 'smc':
+            return self.run_smc(case)
         from elfi.methods.results import Sample, SmcSample, BolfiSample, BslSample
         out = dict(built=False)
         try:
@@ -343,6 +468,176 @@ class C16(PropCheck):
         self._observe(s, case, out, case.get('alphas', []) if kind == 'sample' else [], cols,
                       case.get('weights'), case.get('exact', False))
         out['roundtrip'] = [] if case.get('malformed') in ('ragged',) else self._roundtrip(s, case)
+        return out
+
+    # -- histories ------------------------------------------------------------------------------------
+    @staticmethod
+    def _is_exact(cols, w):
+        """is every binary64 operation of the summaries exact on these columns and weights?  (values k/16, and either no
+        weights with a power-of-two row count or positive integer weights with a power-of-two sum)"""
+        if not cols or not all(abs(v) <= 4096 and float(v * 16).is_integer() for c in cols for v in c):
+            return False
+        n = len(cols[0])
+        if n == 0:
+            return False
+        if w is None:
+            return n & (n - 1) == 0
+        if len(w) != n or not all(float(x).is_integer() and 1 <= x <= 1 << 20 for x in w):
+            return False
+        tot = int(sum(w))
+        return tot & (tot - 1) == 0
+
+    @staticmethod
+    def _apply_op(s, op):
+        v, how = op['value'], op['how']
+        if op['op'] == 'weights':
+            if v is None:
+                s.weights = None
+            elif how == 'rebind':
+                s.weights = np.array(v, dtype=float)
+            elif how == 'rebind_list':
+                s.weights = list(v)
+            elif how == 'inplace':
+                s.weights[:] = v
+            else:
+                s.weights[op['index']] = v[op['index']]
+        else:
+            if how == 'rebind':
+                s.samples[op['name']] = np.array(v, dtype=float)
+            elif how == 'inplace':
+                s.samples[op['name']][:] = v
+            else:
+                s.samples[op['name']][op['index']] = v[op['index']]
+
+    @staticmethod
+    def _summaries(o, alphas):
+        d = {}
+
+        def att(key, f):
+            try:
+                d[key] = ('ok', f())
+            except Exception as e:
+                d[key] = ('err', type(e).__name__)
+        att('sample_means', lambda: [[k, float(v)] for k, v in o.sample_means.items()])
+        att('sample_means_array', lambda: [['', float(v)] for v in o.sample_means_array])
+        att('sample_means_and_95CIs', lambda: [[k + '/%d' % i, float(x)] for k, v in o.sample_means_and_95CIs.items() for i, x in enumerate(v)])
+        for al in alphas:
+            att('sample_quantiles(%r)' % al, (lambda al: lambda: [[k, float(v)] for k, v in o.sample_quantiles(al).items()])(al))
+        att('samples_array', lambda: [['%d,%d' % (i, j), float(v)] for i, row in enumerate(o.samples_array) for j, v in enumerate(row)])
+        return d
+
+    def _fresh_diffs(self, s, names, alphas, cols, w):
+        """the summaries of the object under test next to those of a Sample constructed NOW from the harness's own record of
+        the current columns and weights: selected values (quantiles, array entries) bit-equal, means within 1e-12 relative"""
+        from elfi.methods.results import Sample
+        fresh = Sample('fresh', dict((nm, np.array(c, dtype=float)) for nm, c in zip(names, cols)), list(names),
+                       weights=None if w is None else np.array(w, dtype=float))
+        a, b = self._summaries(s, alphas), self._summaries(fresh, alphas)
+        diffs = []
+        for key in a:
+            (sa, va), (sb, vb) = a[key], b[key]
+            if sa != sb:
+                diffs.append('%s: %s on the object, %s on a fresh Sample with the same samples and weights' % (key, va if sa == 'err' else 'a value', vb if sb == 'err' else 'a value'))
+            elif sa == 'ok':
+                if [k for k, _ in va] != [k for k, _ in vb]:
+                    diffs.append('%s: keys %s, fresh Sample %s' % (key, [k for k, _ in va], [k for k, _ in vb]))
+                    continue
+                for (k, x), (_, y) in zip(va, vb):
+                    is_mean = key in ('sample_means', 'sample_means_array') or (key == 'sample_means_and_95CIs' and k.endswith('/0'))
+                    same = (x == y) or (x != x and y != y) or (is_mean and abs(x - y) <= 1e-12 * max(abs(x), abs(y)))
+                    if not same:
+                        diffs.append('%s[%s] = %r on the object, %r on a fresh Sample with the same samples and weights' % (key, k, x, y))
+                        break
+        return diffs
+
+    def _observe_now(self, s, names, alphas, cols, w):
+        exact = self._is_exact(cols, w)
+        o = dict(exact=exact)
+        self._observe(s, None, o, alphas, cols, w, exact)
+        o['fresh'] = self._fresh_diffs(s, names, alphas, cols, w)
+        # the public attributes read back what was assigned
+        back = []
+        try:
+            if (s.weights is None) != (w is None) or (w is not None and not _same(s.weights, w)):
+                back.append('weights')
+            for nm, c in zip(names, cols):
+                if not _same(s.samples[nm], c):
+                    back.append('samples[%s]' % nm)
+        except Exception as e:
+            back.append('%s: %s' % (type(e).__name__, str(e)[:60]))
+        o['readback'] = back
+        return o
+
+    def run_hist(self, case):
+        from elfi.methods.results import Sample, SmcSample, BslSample
+        outputs = {k: np.array(v, dtype=float) for k, v in case['outputs']}
+        w = None if case['weights'] is None else np.array(case['weights'], dtype=float)
+        names = list(case['names'])
+        if case['cls'] == 'Sample':
+            s = Sample('Rejection', outputs, names, discrepancy_name='d', weights=w, n_sim=np.int64(100), threshold=np.float64(0.37), seed=1)
+        elif case['cls'] == 'SmcSample':
+            half = {k: v[: max(1, len(v) // 2)] for k, v in outputs.items()}
+            pops = [Sample('Rejection', half, names, discrepancy_name='d', weights=None, n_sim=7),
+                    Sample('Rejection', outputs, names, discrepancy_name='d', weights=w, n_sim=11)]
+            s = SmcSample('SMC', outputs, names, populations=pops, discrepancy_name='d', weights=w, n_sim=18)
+        else:
+            s = BslSample('BSL', outputs, names, burn_in=case['burn'], acc_rate=0.25)
+        b = case['burn']
+        cur = dict((k, list(v[b:])) for k, v in case['outputs'])
+        cur_w = case['weights']
+        out = dict(built=True, steps=[])
+        for st in case['steps']:
+            for op in st['ops']:
+                self._apply_op(s, op)
+                if op['op'] == 'weights':
+                    cur_w = op['value']
+                else:
+                    cur[op['name']] = list(op['value'])
+            out['steps'].append(self._observe_now(s, names, st['alphas'], [cur[nm] for nm in names], cur_w))
+        out['roundtrip'] = self._roundtrip(s, case)
+        return out
+
+    def run_smc(self, case):
+        """population case['pop'] (or the final SmcSample for -1) of a real elfi.SMC run: its summaries against ITS stored
+        samples and weights"""
+        run = case['run']
+        key = _json.dumps(run, sort_keys=True)
+        cache = self.__dict__.setdefault('_smc_cache', {})
+        if cache.get('key') != key:
+            cache.clear()
+            cache['key'] = key
+            try:
+                import elfi
+                import elfi.clients.native as native
+                import rejmodels
+                elfi.set_client(native.Client())
+                m = rejmodels.build(dict(two_params=run['two_params'], width=run['width'], levels=run['levels'], inf_above=None))
+                smc = elfi.SMC(m['d'], batch_size=run['b'], seed=run['seed'], max_parallel_batches=run['maxp'])
+                cache['res'] = smc.sample(run['n'], thresholds=list(run['thresholds']), bar=False)
+            except Exception as e:
+                # a run that does not finish is outside the property (singular weighted covariance / all weights zero)
+                if type(e).__name__ == 'LinAlgError' or 'All sample weights are zero' in str(e):
+                    cache['res'] = None
+                    self.bump('smc:run_did_not_finish:' + type(e).__name__)
+                else:
+                    cache.clear()
+                    raise
+        res = cache['res']
+        if res is None:
+            return dict(skipped=True)
+        if len(res.populations) != len(run['thresholds']):
+            raise RuntimeError('SMC returned %d populations for %d thresholds' % (len(res.populations), len(run['thresholds'])))
+        p = res if case['pop'] < 0 else res.populations[case['pop']]
+        names = list(p.parameter_names)
+        cols = [[float(v) for v in np.asarray(p.samples[nm]).ravel()] for nm in names]
+        w = None if p.weights is None else [float(x) for x in np.asarray(p.weights).ravel()]
+        disc = [float(v) for v in np.asarray(p.discrepancies).ravel()]
+        out = dict(built=True, names=names, outputs=[[nm, c] for nm, c in zip(names, cols)] + [['d', disc]], weights=w,
+                   obj=type(p).__name__, threshold=float(p.threshold))
+        out['steps'] = [self._observe_now(p, names, case['alphas'], cols, w)]
+        self.bump('smc:observed=%s' % ('result' if case['pop'] < 0 else 'population_0' if case['pop'] == 0 else 'population>=1'))
+        if w is not None and len(set(w)) > 1:
+            self.bump('smc:observed_with_unequal_weights')
         return out
 
     def _roundtrip(self, s, case):
@@ -506,6 +801,30 @@ class C16(PropCheck):
             return fails
         for d in out.get('roundtrip', []):
             fails.append(('save_roundtrip', d))
+        if case['kind'] in ('hist', 'smc'):
+            # every point of the history: the internal consistency clauses, the comparison with a freshly constructed Sample
+            # holding the current samples and weights, and the attributes read back
+            for i, o in enumerate(out['steps']):
+                where = ('round %d of the history' % i) if case['kind'] == 'hist' else \
+                    ('SMC %s' % ('result' if case['pop'] < 0 else 'population %d' % case['pop']))
+                for clause, msg in self._consistency(o):
+                    fails.append((clause, '%s: %s' % (where, msg)))
+                for d in o['fresh'][:3]:
+                    fails.append(('summary_of_current_state', '%s: %s' % (where, d)))
+                for d in o['readback']:
+                    fails.append(('attribute_readback', '%s: %s does not read back the assigned value' % (where, d)))
+            return fails
+        fails.extend(self._consistency(out))
+        if case['kind'] == 'bolfi':
+            if not out.get('chains_kept'):
+                fails.append(('bolfi_chains', 'meta chains is not an equal copy of the input'))
+            if out.get('meta') != [len(case['chains']), case['warmup']]:
+                fails.append(('bolfi_meta', 'n_chains/warmup meta %s' % out.get('meta')))
+        return fails
+
+    @staticmethod
+    def _consistency(out):
+        fails = []
         # sample_means_array and sample_means_and_95CIs repeat sample_means / sample_quantiles
         if out['means'] is not None:
             if out['means_array'] is None or not _same(out['means_array'], [v for _, v in out['means']]):
@@ -520,11 +839,6 @@ class C16(PropCheck):
                         fails.append(('ci_quantiles', '95CI bound differs from sample_quantiles(%s)' % al))
         if out['array'] is not None and out['dim'] is not None and out['array_shape'] != [out['n_samples'], len(out['sample_keys'])]:
             fails.append(('array_shape', 'samples_array shape %s, n_samples %s, keys %s' % (out['array_shape'], out['n_samples'], out['sample_keys'])))
-        if case['kind'] == 'bolfi':
-            if not out.get('chains_kept'):
-                fails.append(('bolfi_chains', 'meta chains is not an equal copy of the input'))
-            if out.get('meta') != [len(case['chains']), case['warmup']]:
-                fails.append(('bolfi_meta', 'n_chains/warmup meta %s' % out.get('meta')))
         return fails
 
     def _sweep_check(self, case, out):
@@ -575,6 +889,15 @@ class C16(PropCheck):
             order = [k for k, _ in case['outputs'] if k in case['names']]
             if len(case['names']) >= 2 and order != case['names'] and out.get('array') is not None:
                 return _json.dumps(['s', case['names'], case['outputs'], case['weights'], case['burn']])
+        elif case['kind'] == 'hist':
+            # some assignment after construction puts unequal, well-formed weights on the object
+            n = len(case['outputs'][0][1]) - case['burn']
+            if any(op['op'] == 'weights' and op['value'] is not None and len(op['value']) == n and len(set(op['value'])) > 1
+                   and min(op['value']) >= 0 for st in case['steps'] for op in st['ops']):
+                return _json.dumps(['h', case['names'], case['outputs'], case['weights'], case['burn'], case['steps']])
+        elif case['kind'] == 'smc':
+            if out.get('built') and out['weights'] is not None and len(set(out['weights'])) > 1:
+                return _json.dumps(['smc', case['run'], case['pop']])
         elif case['kind'] == 'bolfi':
             N = len(case['chains'][0])
             if len(case['chains']) >= 2 and 0 < case['warmup'] < N:
@@ -593,6 +916,8 @@ class C16(PropCheck):
                     % (_rows_q(case['chains']), cq(out['rhat']), cq(out['ess']), cq(case['a']), cq(case['b']),
                        cq(out['rhat_aff']), cq(out['ess_aff']), clist([cnat(i) for i in case['perm']]),
                        cq(out['rhat_perm']), cq(out['ess_perm'])))
+        if case['kind'] in ('hist', 'smc'):
+            return self._hist_to_coq(case, out)
         arr = None if out['array'] is None else _rows_q(out['array'])
         if out['means'] is not None and not all(math.isfinite(v) for _, v in out['means']):
             if out['n_samples'] != 0:
@@ -612,6 +937,46 @@ class C16(PropCheck):
         return ('CSample %s %s %s %s %s %s %s %s %s'
                 % (clist([cstr(n) for n in case['names']]), outputs, cnat(case['burn']), w, cbool(case['exact']),
                    copt(out['n_samples'], cnat), opt(arr), opt(means), quant))
+
+    def _hist_to_coq(self, case, out):
+        if not out.get('built'):
+            return None
+        opt = lambda x: 'None' if x is None else '(Some %s)' % x
+        wq = lambda w: 'None' if w is None else '(Some %s)' % clist([cq(v) for v in w])
+        steps = []
+        ops_of = [st['ops'] for st in case['steps']] if case['kind'] == 'hist' else [[]]
+        for ops, o in zip(ops_of, out['steps']):
+            more = []
+            if o['means_array'] is not None:
+                more.append([[k, v] for k, v in zip(o['sample_keys'], o['means_array'])])
+            quant = list(o['quant'])
+            if o['ci'] is not None:
+                more.append([[k, v[0]] for k, v in o['ci']])
+                for al, idx in ((0.025, 1), (0.975, 2)):
+                    if any(a2 == al for a2, _ in o['quant']):          # the level is away from every cumulative-weight boundary
+                        quant.append([al, [[k, v[idx]] for k, v in o['ci']]])
+            numbers = [v for ms in more for _, v in ms] + ([v for _, v in o['means']] if o['means'] is not None else [])
+            if not all(math.isfinite(v) for v in numbers):
+                self.bump('hist:skipped_nonfinite_mean')
+                return None
+            cops = []
+            for op in ops:
+                if op['op'] == 'weights':
+                    cops.append('OSetW %s' % wq(op['value']))
+                else:
+                    cops.append('OSetCol %s %s' % (cstr(op['name']), clist([cq(v) for v in op['value']])))
+            obs = ('(Build_obs %s %s %s %s %s %s)'
+                   % (cbool(o['exact']), copt(o['n_samples'], cnat), opt(None if o['array'] is None else _rows_q(o['array'])),
+                      opt(None if o['means'] is None else _named_q(o['means'])), clist([_named_q(ms) for ms in more]),
+                      clist(['(%s, %s)' % (cq(al), _named_q(qs)) for al, qs in quant])))
+            steps.append('(%s, %s)' % (clist(cops), obs))
+        if case['kind'] == 'hist':
+            names, outputs, burn, w = case['names'], case['outputs'], case['burn'], case['weights']
+        else:
+            names, outputs, burn, w = out['names'], out['outputs'], 0, out['weights']
+        return ('CHist %s %s %s %s %s'
+                % (clist([cstr(n) for n in names]), clist(['(%s, %s)' % (cstr(k), clist([cq(v) for v in vs])) for k, vs in outputs]),
+                   cnat(burn), wq(w), clist(steps)))
 
 
 if __name__ == '__main__':
